@@ -36,7 +36,9 @@ META = {
             "a search for an explaining sequential order per contended key on multi-rank runs under simmpi.",
     "note": "Trusted: Lean kernel + propext/Classical.choice/Quot.sound; the hand-written model MapOps.lean, tied to map_impl.hpp on the "
             "explored histories only; exactly-once atomic execution on the owner (C01/C02/C08) is the assumption `Dist.Complete`, not proved "
-            "here; std::hash and std::multimap (equal keys keep insertion order) are trusted; user lambdas are parameters (the harness registers "
+            "here; std::hash and std::multimap (equal keys keep insertion order) are trusted; the containers are also instantiated "
+            "with a non-default Compare (std::greater, a custom order) and a non-default Partitioner, with ascending and descending key sweeps - the "
+            "model is unchanged for them, because the comparator only orders the local store and the partitioner only picks the owner; user lambdas are parameters (the harness registers "
             "a fixed table of visitors/reducers mirrored in Driver/MapSet.lean); topk's distributed merge is compared, not proved; "
             "serialize/deserialize belong to C20.",
 }
@@ -68,10 +70,23 @@ class MapFlavour:
     mode = "map"
     pid = "C11"
 
-    def __init__(self, what, kinds):
-        self.what, self.kinds = what, kinds
+    def __init__(self, what, kinds, variant="d"):
+        # variant: 'd' default template arguments, 'g' Compare = std::greater<Key>, 'p' alt_compare + alt_partitioner
+        # (harness/mapset.cpp).  The model is the same for every variant: the comparator only orders the local store,
+        # the partitioner only picks the owner (owners are read from the run).
+        self.what, self.kinds, self.variant = what, kinds, variant
         self.multi = what == "multimap"
         self.kk, self.vk = kinds[0], kinds[1]
+
+    def sweep_keys(self):
+        """a run of keys used by the ascending / descending sweeps (listed in ascending operator< order)"""
+        return [str(100 + i) for i in range(24)] if self.kk == "i" else ["s%02d" % i for i in range(24)]
+
+    def sweep_op(self, rnd, k):
+        v, a, K = qt(self.rand_val(rnd)), qt(self.rand_val(rnd)), qt(k)
+        if self.multi:
+            return rnd.choice([["insm", K, v], ["insm", K, v], ["vis", K, str(rnd.choice([0, 1])), a]])
+        return rnd.choice([["ins", K, v], ["iim", K, v], ["vis", K, str(rnd.choice([0, 1])), a], ["iev", K, v, "0", a], ["red", K, v, "0"]])
 
     # --- universe
     def base_keys(self, rnd):
@@ -85,7 +100,7 @@ class MapFlavour:
         return str(int(k) + 1000000) if self.kk == "i" else k + "~"
 
     def universe(self, base):
-        u = list(base)
+        u = list(base) + self.sweep_keys()
         u += [self.dk(k) for k in base]
         u += [self.dk(self.dk(k)) for k in base]
         return u
@@ -256,7 +271,17 @@ def gen_scenario(fl, rnd, ranks, nblocks, onerank, scale=1.0, clearrace=False):
         if kind in ("ops", "swap") or (kind in fl.mut_with_ops()):
             keys = list(base)
             rnd.shuffle(keys)
-            if onerank:
+            if rnd.random() < 0.25:
+                # sweeps: one or two ranks walk a run of keys in ascending resp. descending order (messages of one rank
+                # reach an owner in issue order), so every owner stores smaller AND larger keys when the next one arrives
+                sk = fl.sweep_keys()
+                for _ in range(rnd.randrange(1, 3)):
+                    r, c = rnd.randrange(ranks), 0 if rnd.random() < 0.8 else 1
+                    run = sk[rnd.randrange(0, 8):rnd.randrange(12, len(sk) + 1)]
+                    for k in (run if rnd.random() < 0.5 else run[::-1]):
+                        ops.append((r, c, fl.sweep_op(rnd, k)))
+                blk["sweep"] = True
+            elif onerank:
                 n = int(rnd.randrange(30, 70) * scale)
                 for _ in range(n):
                     k = rnd.choice(keys[:max(3, len(keys) // 2)]) if rnd.random() < 0.7 else rnd.choice(keys)
@@ -338,7 +363,7 @@ def run_case(binary, fl, case, scn_lines):
         env = {"YGM_COMM_ROUTING": case["routing"]}
         if case["buffer"] is not None:
             env["YGM_COMM_BUFFER_SIZE_KB"] = case["buffer"]
-        return C.run_sim(binary, [fl.what, fl.kinds, p], nodes=case["nodes"], ppn=case["ppn"], env=env,
+        return C.run_sim(binary, [fl.what, fl.kinds, p, fl.variant], nodes=case["nodes"], ppn=case["ppn"], env=env,
                          sim_seed=case["sim_seed"], policy=case["policy"], eager_pct=case.get("eager", 50), want_log=False,
                          timeout=case.get("timeout", 40), max_steps=400000, livelock=100000)
     finally:
@@ -468,7 +493,7 @@ def analyse(fl, scn, sr, case, res, model_ok):
                     F[c][k] = F[c][k] + vs
         # ---- undo the mutation to obtain the contents right after the operations
         mut = blk["mut"]
-        res.count("block:" + ("+".join(mut[:1] + mut[2:3]) if mut else "ops") + ("" if blk["ops"] else "(no ops)")
+        res.count("block:" + ("+".join(mut[:1] + mut[2:3]) if mut else ("sweep asc/desc" if blk.get("sweep") else "ops")) + ("" if blk["ops"] else "(no ops)")
                   + (" then ops without barrier" if blk.get("mut_first") else ""))
         for (_, d) in blk["obs"]:
             res.count("obs:" + d[0])
@@ -734,7 +759,7 @@ def clear_race_cases(flavours, tier, seed):
 def make_cases(flavours, tier, seed):
     rnd = random.Random(seed * 7919 + 11)
     cases = []
-    n1 = 6 if tier == "quick" else 40
+    n1 = 4 if tier == "quick" else 24
     # (a) one rank: every flavour x buffer
     for fl in flavours:
         for buf in BUFFERS:
@@ -743,7 +768,7 @@ def make_cases(flavours, tier, seed):
                               "sim_seed": rnd.randrange(1, 1 << 30), "gen_seed": rnd.randrange(1 << 30), "blocks": 5 if tier == "quick" else 8,
                               "eager": rnd.choice([0, 50, 100]), "scale": 1.0 if tier == "quick" else rnd.choice([1.0, 2.0])})
     # (b) distributed: rotate through layouts x routings x buffers x policies
-    nd = (80 if tier == "quick" else 2500) * len(flavours)
+    nd = (60 if tier == "quick" else 1200) * len(flavours)
     off = rnd.randrange(1000)
     for i in range(nd):
         fl = flavours[i % len(flavours)]
@@ -758,7 +783,7 @@ def make_cases(flavours, tier, seed):
 
 def case_public(case):
     d = {k: v for k, v in case.items() if k != "fl"}
-    d["what"], d["kinds"] = case["fl"].what, case["fl"].kinds
+    d["what"], d["kinds"], d["variant"] = case["fl"].what, case["fl"].kinds, case["fl"].variant
     return d
 
 
@@ -817,7 +842,7 @@ def run_flavours(flavours, tier, seed, model_ok, rule, assumptions, race_env=Non
         res.corr_failures += frag.corr_failures
         for k, v in frag.distribution.items():
             res.count(k, v)
-        res.count(f"{fl.what}/{fl.kinds}")
+        res.count(f"{fl.what}/{fl.kinds}/" + {"d": "default", "g": "std::greater", "p": "alt_compare+alt_partitioner"}[fl.variant])
         res.count("ranks=" + str(R))
         res.count("routing=" + case["routing"])
         res.count("buffer=" + str(case["buffer"]))
@@ -832,14 +857,15 @@ def run_flavours(flavours, tier, seed, model_ok, rule, assumptions, race_env=Non
         if info["verdict"] == "ok":
             res.traces_validated += 1
             if info["contended"]:
-                res.distinct.add((fl.what, fl.kinds, case["nodes"], case["ppn"], case["routing"], case["buffer"], case["policy"], case["gen_seed"]))
+                res.distinct.add((fl.what, fl.kinds, fl.variant, case["nodes"], case["ppn"], case["routing"], case["buffer"], case["policy"], case["gen_seed"]))
             res.count("contended key-blocks" if R > 1 else "1-rank blocks >= 20 ops", info["contended"])
             if len(res.samples) < 3 and R > 1:
                 res.sample(dict(case_public(case), operations=info["nops"], contended_key_blocks=info["contended"]))
     return res
 
 
-FLAVOURS = [MapFlavour(w, k) for w in ("map", "multimap") for k in ("ss", "is", "si")]
+FLAVOURS = ([MapFlavour(w, k, v) for v in ("d", "g") for w in ("map", "multimap") for k in ("ss", "is", "si")]
+            + [MapFlavour(w, k, "p") for w in ("map", "multimap") for k in ("ss", "is")])
 ASSUME = ["every operation is executed exactly once, atomically, on owner(key) before the barrier returns (C01/C02/C08; Dist.Complete)",
           "std::multimap keeps equal keys in insertion order; std::hash is a parameter (owners are read from the real run)",
           "runs aborted by the messaging layer (comm.ipp assertion, deadlock) are C03's subject and are skipped here, counted in the distribution"]
@@ -858,7 +884,7 @@ def replay_with(flavour_of, data):
     if binary is None:
         print(err[-500:])
         return False
-    case["fl"] = flavour_of(case["what"], case["kinds"])
+    case["fl"] = flavour_of(case["what"], case["kinds"], case.get("variant", "d"))
     _, frag, info = do_case(binary, case, True)
     print("verdict", info)
     for f in frag.oracle_failures[:5]:
@@ -869,4 +895,4 @@ def replay_with(flavour_of, data):
 
 
 def replay(data):
-    return replay_with(lambda w, k: MapFlavour(w, k), data)
+    return replay_with(lambda w, k, v: MapFlavour(w, k, v), data)
